@@ -57,7 +57,7 @@ def run(chk, binary):
         text = gen_text(rng)
         pat = rng.choice(PATTERNS)
         flag = rng.choice(["-g", "-g", "-v"])
-        variant = rng.choice(["mark", "cut", "else", "tally", "top", "nested", "elsecut", "open", "open2", "dangling"])
+        variant = rng.choice(["mark", "cut", "else", "tally", "top", "nested", "elsecut", "open", "open2", "dangling", "dot", "exbody"])
         pat2 = rng.choice(PATTERNS)
         if variant == "tally":
             # the scope also edits the first line each time: the lines still to be visited move
@@ -79,6 +79,12 @@ def run(chk, binary):
         elif variant == "nested":
             # a scope of its own in the --else branch: it runs (once) only when the outer set is empty
             argv = [flag, pat, "-m", "I#<esc>", "--else", "-g", pat2, "-m", "I%<esc>", "--end", "--end"]
+        elif variant == "dot":
+            # the scope repeats, on every line it visits, a change made before it (a session typed at the very start of the text)
+            argv = ["-m", "ggi#<esc>", flag, pat, "-m", ".", "--end"]
+        elif variant == "exbody":
+            # an ex command without an address in the scope works on the visited line - also when a selection was made and closed earlier
+            argv = ["-m", rng.choice(["vly", "Vy", "vjy", "viwy"]), flag, pat, "-m", ":s/^/#/<CR>", "--end"]
         elif variant == "mark":
             argv = [flag, pat, "-m", "I#<esc>", "--end"]
         elif variant == "cut":
@@ -88,7 +94,7 @@ def run(chk, binary):
         jobs.append({"args": argv, "stdin": text})
         meta.append((text, pat, flag, variant, argv, pat2))
     res = cli_map(binary, jobs)
-    dist = {"mark": 0, "cut": 0, "else": 0, "tally": 0, "top": 0, "nested": 0, "elsecut": 0, "open": 0, "open2": 0, "dangling": 0, "final_newline": 0, "empty_lines": 0, "multibyte": 0, "else_taken": 0}
+    dist = {"mark": 0, "cut": 0, "else": 0, "tally": 0, "top": 0, "nested": 0, "elsecut": 0, "open": 0, "open2": 0, "dangling": 0, "dot": 0, "exbody": 0, "final_newline": 0, "empty_lines": 0, "multibyte": 0, "else_taken": 0}
     mcases = []
     mmeta = []
     for (text, pat, flag, variant, argv, pat2), (rc, out, err) in zip(meta, res):
@@ -101,6 +107,8 @@ def run(chk, binary):
         if any(ord(c) > 127 for c in text):
             dist["multibyte"] += 1
         lines = ref_lines(text)
+        if variant == "dot" and lines and text:
+            lines = ["#" + lines[0]] + lines[1:]          # the change made before the scope; the pattern sees the text as it then is
         try:
             hit = [bool(re.search(pat, l)) for l in lines]
         except re.error:
@@ -113,6 +121,13 @@ def run(chk, binary):
         sout = out.decode("utf-8", errors="replace")
         if variant == "elsecut" and not want:
             continue            # the else branch cut a field: not the subject here
+        if variant in ("dot", "exbody"):
+            if text == "":
+                continue
+            exp = "\n".join(("#" + l if i in want else l) for i, l in enumerate(lines)) + ("\n" if text.endswith("\n") else "")
+            if sout != exp + "\n":
+                chk.violation("spec:-g/-v did not run on exactly the expected lines", dict(case, expected_stdout=exp + "\n"))
+            continue
         if variant in ("mark", "else", "tally", "top", "nested", "elsecut", "open", "open2", "dangling"):
             # every visited line gets '#' before its first non-blank character, no other line changes
             exp_lines = []
